@@ -29,6 +29,8 @@ func main() {
 		cmdVC(os.Args[2:])
 	case "list":
 		cmdList(os.Args[2:])
+	case "effects":
+		cmdEffects(os.Args[2:])
 	case "check":
 		os.Exit(cmdCheck(os.Args[2:]))
 	case "lock":
@@ -147,5 +149,28 @@ func cmdList(args []string) {
 		fc := DB.Funcs[k]
 		_, has := P.Funcs[k]
 		fmt.Printf("%-8s %-80s props=%v body=%v\n", fc.Kind, k, fc.Props, has)
+	}
+}
+
+
+// cmdEffects prints the inferred effect summary of functions (debugging aid).
+func cmdEffects(args []string) {
+	P, DB, err := loadAll(nil)
+	if err != nil {
+		fmt.Println("load error:", err)
+		os.Exit(2)
+	}
+	S := P.summaries(DB)
+	for _, k := range P.FuncKeysMatching(args[0]) {
+		e := S.fn[P.Funcs[k]]
+		if e == nil {
+			continue
+		}
+		fmt.Printf("%s: all=%v ext=%v trace=%v alloc=%v why=%s\n", k, e.all, e.ext, e.trace, e.alloc, e.why)
+		if !e.all {
+			for _, a := range sortedKeys(e.arrs) {
+				fmt.Printf("    %s\n", a)
+			}
+		}
 	}
 }
